@@ -6,8 +6,9 @@ specification: IpcHub/Spec/Packetise.lean (the sender's packetiser per RFC 6184 
 -/
 import IpcHub.Model.DepackInst
 import IpcHub.Spec.Packetise
+import IpcHub.Lemmas.DepackRound265
 namespace IpcHub.Props.C06
-open IpcHub.Depack IpcHub.Packetise
+open IpcHub.Depack IpcHub.Packetise IpcHub.DepackRound
 
 /-- The source facts the theorems rest on, regenerated from /repo on every run: every guard
     (if / for / case condition) of the depacketizer functions in source order, the assignments
@@ -89,6 +90,81 @@ theorem c06_gen_cfg :
     genCfg.psUntilReady264 = true ∧ genCfg.psUntilReady265 = true ∧
     genCfg.aacIndexLength = 3 ∧ genCfg.samplesPerFrame = 1024 ∧ genCfg.ptsDelay = 500000000 := by
   decide
+
+/-- the guards the round trip needs are those of the current source -/
+theorem c06_round_cfg : RoundCfg genCfg := by
+  refine ⟨?_, ?_, ?_, ?_, ?_⟩ <;> decide
+
+/-- C06, H.264 (RFC 6184 single NAL unit / STAP-A / FU-A).  For EVERY list of packetisation
+    decisions `items` of a sender — any NAL units (type 1…23, F = 0, any size ≥ 1 byte; aggregated
+    ones < 64 KiB), any aggregation grouping, any fragment sizes (≥ 2 non-empty fragments), any
+    marker bits, any initial sequence number (UInt16 arithmetic: wrap included), any RTP
+    timestamps — and EVERY depacketizer state whose metadata is ready (parameter sets known; the
+    fragment buffer and the stored parameter sets may hold anything, e.g. the left-overs of
+    garbage), the frames handed to the FrameWriter are exactly the sender's units: same bytes,
+    same order, none invented, each with its RTP timestamp and the one clock base; no call
+    returns an error or panics.
+    FULL STATEMENT: the same without `itemNoFiller`.  `_partial`: filler data NAL units (type 12)
+    are excluded — the code drops them on purpose (open known finding `h264-filler-dropped`,
+    `c06_filler_dropped_witness`). -/
+theorem c06_h264_roundtrip_partial (spsOk : Bytes → Bool) (items : List Item) (st : VSt) (seq0 : UInt16)
+    (hr : st.ready = true) (hl : ∀ it ∈ items, legal264 it = true ∧ itemNoFiller it = true) :
+    (vRun genCfg spsOk .h264 st (packets264 seq0 items)).2 = ((units items).map (frameOf st.base), .ok) := by
+  obtain ⟨st', h, _⟩ := h264_roundtrip genCfg c06_round_cfg spsOk items st seq0 hr hl
+  rw [h]
+
+/-- non-vacuity: a stream with all three packetisation modes (SPS+PPS+SEI aggregated, an IDR slice
+    in 3 fragments, a 1-byte end-of-sequence unit as single NAL unit packet) meets the hypotheses,
+    and the theorem's conclusion evaluates to the three + one + one units -/
+example :
+    let items : List Item := [.agg 9000 false [[0x67, 0x42, 0x00], [0x68, 0xce], [0x06, 0x05]],
+      .frag 9000 true [0x65, 1, 2, 3, 4, 5, 6, 7] [2, 3], .single 12000 true [0x0a]]
+    (∀ it ∈ items, legal264 it = true ∧ itemNoFiller it = true) ∧
+    (vRun genCfg (fun _ => false) .h264 { ready := true, frags := [⟨7, 7, false, [0x5c, 0x05, 9]⟩] } (packets264 65534 items)).2.1.length = 5 := by
+  decide
+
+/-- C06, H.265 (RFC 7798 single NAL unit / AP / FU, no DONL): as above, at full strength —
+    every NAL unit with a 2-byte header and type 0…47, every grouping, every fragment sizes. -/
+theorem c06_h265_roundtrip (spsOk : Bytes → Bool) (items : List Item) (st : VSt) (seq0 : UInt16)
+    (hr : st.ready = true) (hl : ∀ it ∈ items, legal265 it = true) :
+    (vRun genCfg spsOk .h265 st (packets265 seq0 items)).2 = ((units items).map (frameOf st.base), .ok) := by
+  obtain ⟨st', h, _⟩ := h265_roundtrip genCfg c06_round_cfg spsOk items st seq0 hr hl
+  rw [h]
+
+example :
+    let items : List Item := [.agg 9000 false [[0x40, 1, 0x0c], [0x42, 1, 1], [0x44, 1, 0xc1]],
+      .frag 9000 true [0x26, 1, 2, 3, 4, 5, 6, 7] [1, 1, 2], .single 12000 true [0x48, 1]]
+    (∀ it ∈ items, legal265 it = true) ∧
+    (vRun genCfg (fun _ => false) .h265 { ready := true } (packets265 65535 items)).2.1.length = 5 := by
+  decide
+
+/-- C06, AAC (RFC 3640 AAC-hbr, 13-bit size / 3-bit index): for EVERY list of 1 … 4095 access
+    units of < 8192 bytes each in one packet, any clock base, sequence number, timestamp and
+    marker, the frames are exactly the AUs in order, AU i stamped `ts + 1024·i` (UInt32
+    arithmetic), and the call returns nil. -/
+theorem c06_aac_roundtrip (base : UInt32) (s : UInt16) (ts : UInt32) (m : Bool) (aus : List Bytes)
+    (hl : legalAac aus = true) :
+    aacStep genCfg base ⟨s, ts, m, aacPayload aus⟩
+      = ((aacUnits 1024 ts aus).map (fun u => ⟨true, u.1, base, u.2⟩), .ok) := by
+  have := aac_roundtrip genCfg (by decide) base s ts m aus hl
+  rw [show genCfg.samplesPerFrame = 1024 from by decide] at this
+  exact this
+
+example : legalAac [[1, 2, 3], [], [4]] = true ∧
+    (aacStep genCfg 0 ⟨0, 4294966784, true, aacPayload [[1, 2, 3], [], [4]]⟩).1.map (·.ts) = [4294966784, 512, 1536] := by
+  decide
+
+/-- C06, presentation times: every frame of the round trip carries the sender's RTP timestamp
+    of its unit and the depacketizer's clock base, so its PTS is `conv(ts − base) + ptsDelay`:
+    units of one RTP timestamp share one presentation time, and PTS differences are a function of
+    the RTP timestamps alone (the non-modular subtraction at the 2^32 wrap is the open finding
+    `rtp-timestamp-wrap`; `conv` is the exact-rational stand-in for the float64 product). -/
+theorem c06_presentation_times (rate : Nat) (base : UInt32) (u v : UInt32 × Bytes) :
+    (frameOf base u).pts genCfg rate = conv rate ((u.1.toNat : Int) - base.toNat) + 500000000 ∧
+    (u.1 = v.1 → (frameOf base u).pts genCfg rate = (frameOf base v).pts genCfg rate) := by
+  refine ⟨?_, ?_⟩
+  · simp [Frame.pts, frameOf, show genCfg.ptsDelay = 500000000 from by decide]
+  · intro h; simp [Frame.pts, frameOf, h]
 
 private def pk (s : UInt16) (ts : UInt32) (b : Bytes) : Pkt := ⟨s, ts, false, b⟩
 
